@@ -19,7 +19,7 @@ NOT_YET = {
 
 PROPS = {
     'C13': dict(
-        drivers=[dict(driver='alloc', monitors=['MON13']), dict(driver='allocconc', cmd='d_allocconc', monitors=['MON13C'])],
+        drivers=[dict(driver='alloc', monitors=['MON13', 'MON14X']), dict(driver='allocconc', cmd='d_allocconc', monitors=['MON13C'])],
         proof_files=['AllocProofs.v', 'AllocConcProofs.v'], props=['C13', 'C13conc'],
         level_text="Theorem C13_holds: for all limits, peers and operation scripts (all amounts) the allocator model's history satisfies the executable accounting/limits monitor; C13_limits: invariant on every reachable state. The model is run against the real allocator.Allocator on generated scripts every run and the same monitor is evaluated on the implementation's histories. Concurrent callers: every public method holds the allocator's lock for its whole body, so a group of overlapping calls acts as some permutation of them; C13conc_acceptor_sound — whenever the executable acceptor accepts the observations of a script with groups there is a linearisation whose model run yields exactly them, and its final state satisfies the limits invariant; C13conc_limits — every state reachable through groups (also mid-group) satisfies it. A second driver forces groups of 2-3 calls on the real allocator to overlap (lock held through a verif hook until all callers are parked on it) and evaluates acceptor and monitor MON13C.",
         level_note="Kernel-checked over the Gallina model of allocator.go; tie to the Go code is differential (sampled scripts + exhaustive small scripts in the thorough tier). Heap tie-breaking assumed unobservable; nextAllocIndex assumed not to wrap.",
